@@ -6,7 +6,7 @@ line-protocol ops for C15
 
 * `c15hist` — a history executed by the real code (`init`, then per step the operation and the real outcome).
   For every step, from the *real* project before the step: the model's outcome, whether it agrees with the
-  real outcome (for `select`: for some iteration order of the service map), and the clauses of
+  real outcome (exactly), and the clauses of
   `Spec/Select.lean` that the real before/after pair violates.
 -/
 open Lean
@@ -30,8 +30,9 @@ def strsOf (j : Json) (k : String) : List String :=
 
 def depOfJson (j : Json) : Dep := { required := getBool j "required", cond := getStr j "cond" }
 
-def svcOfJson (j : Json) : Svc :=
-  { image := getStr j "image"
+def svcOfJson (k : String) (j : Json) : Svc :=
+  { name := (match j.getObjVal? "name" with | .ok (.str s) => s | _ => k)   -- absent = the map key
+    image := getStr j "image"
     profiles := strsOf j "profiles"
     deps := (objOf j "deps").map fun (k, v) => (k, depOfJson v)
     nets := strsOf j "nets"
@@ -42,19 +43,21 @@ def svcOfJson (j : Json) : Svc :=
     build := match j.getObjVal? "build" with
       | .ok (.arr a) => some (a.toList.filterMap fun x => match x with | .str s => some s | _ => none)
       | _ => none
-    configs := strsOf j "configs" }
+    configs := strsOf j "configs"
+    env := (objOf j "env").map fun (k, v) => (k, match v with | .str s => some s | _ => none) }
 
 def strMapOf (j : Json) (k : String) : AL String :=
   (objOf j k).filterMap fun (k, v) => match v with | .str s => some (k, s) | _ => none
 
 def projOfJson (j : Json) : Proj :=
-  { services := (objOf j "services").map fun (k, v) => (k, svcOfJson v)
-    disabled := (objOf j "disabled").map fun (k, v) => (k, svcOfJson v)
+  { services := (objOf j "services").map fun (k, v) => (k, svcOfJson k v)
+    disabled := (objOf j "disabled").map fun (k, v) => (k, svcOfJson k v)
     profiles := strsOf j "profiles"
     networks := strMapOf j "networks"
     volumes := strMapOf j "volumes"
     secrets := strMapOf j "secrets"
-    configs := strMapOf j "configs" }
+    configs := strMapOf j "configs"
+    environment := strMapOf j "environment" }
 
 def polOfStr : String → Policy
   | "dependents" => .dependents
@@ -77,13 +80,14 @@ def strs (l : List String) : Json := .arr (l.map Json.str).toArray
 def depToJson (d : Dep) : Json := Json.mkObj [("required", .bool d.required), ("cond", .str d.cond)]
 
 def svcToJson (s : Svc) : Json :=
-  Json.mkObj [("image", .str s.image), ("profiles", strs s.profiles),
+  Json.mkObj [("name", .str s.name), ("image", .str s.image), ("profiles", strs s.profiles),
     ("deps", Json.mkObj (s.deps.map fun (k, d) => (k, depToJson d))),
     ("nets", strs s.nets),
     ("vols", .arr (s.vols.map fun (t, x) => Json.arr #[.str t, .str x]).toArray),
     ("secrets", strs s.secrets),
     ("build", match s.build with | some l => strs l | none => .null),
-    ("configs", strs s.configs)]
+    ("configs", strs s.configs),
+    ("env", Json.mkObj (s.env.map fun (k, v) => (k, match v with | some x => Json.str x | none => Json.null)))]
 
 def strMapToJson (m : AL String) : Json := Json.mkObj (m.map fun (k, v) => (k, Json.str v))
 
@@ -92,7 +96,8 @@ def projToJson (p : Proj) : Json :=
     ("disabled", Json.mkObj (p.disabled.map fun (k, s) => (k, svcToJson s))),
     ("profiles", strs p.profiles),
     ("networks", strMapToJson p.networks), ("volumes", strMapToJson p.volumes),
-    ("secrets", strMapToJson p.secrets), ("configs", strMapToJson p.configs)]
+    ("secrets", strMapToJson p.secrets), ("configs", strMapToJson p.configs),
+    ("environment", strMapToJson p.environment)]
 
 def outToJson : Out → Json
   | .ok p => Json.mkObj [("ok", projToJson p)]
@@ -103,14 +108,15 @@ def outToJson : Out → Json
 
 def sortAL {α} (m : AL α) : AL α := m.mergeSort (fun a b => decide (a.1 ≤ b.1))
 
-def canonSvc (s : Svc) : Svc := { s with deps := sortAL s.deps, nets := s.nets.mergeSort (fun a b => decide (a ≤ b)) }
+def canonSvc (s : Svc) : Svc := { s with deps := sortAL s.deps, env := sortAL s.env, nets := s.nets.mergeSort (fun a b => decide (a ≤ b)) }
 
 def canon (p : Proj) : Proj :=
   { services := sortAL (p.services.map fun (k, s) => (k, canonSvc s))
     disabled := sortAL (p.disabled.map fun (k, s) => (k, canonSvc s))
     profiles := p.profiles
     networks := sortAL p.networks, volumes := sortAL p.volumes
-    secrets := sortAL p.secrets, configs := sortAL p.configs }
+    secrets := sortAL p.secrets, configs := sortAL p.configs
+    environment := sortAL p.environment }
 
 def insertEverywhere {α} (x : α) : List α → List (List α)
   | [] => [[x]]
@@ -120,11 +126,13 @@ def perms {α} : List α → List (List α)
   | [] => [[]]
   | x :: xs => (perms xs).flatMap (insertEverywhere x)
 
-/-- does some iteration order of the service map make the model produce `q`? (bounded: ≤ 7 services) -/
+/-- diagnosis only: does the *pre-fix* loop, for some iteration order of the service map, produce `q`?
+(bounded: ≤ 7 services).  Since the `fix:` commit the model is order independent (`select_perm`) and the
+comparison is exact; a disagreement labelled `pre-fix-order` says the old behaviour is back. -/
 def selectSomeOrder (p : Proj) (names : List String) (pol : Policy) (q : Proj) : Bool :=
   if p.services.length > 7 then false
   else (perms p.services).any fun l =>
-    match withSelectedServices { p with services := l } names pol with
+    match withSelectedServicesPre { p with services := l } names pol with
     | .ok m => canon m == q
     | _ => false
 
@@ -145,6 +153,7 @@ def specViolations (p : Proj) (o : Op) (r : Option Proj) : List String :=
     clause "resources" (decide (sameResources p q))
   | .disable ns, some q =>
     clause "conserved" (decide (Conserved p q)) ++ clause "disable" (decide (DisableSpec p ns q)) ++
+    clause "disable-moved" (decide (DisableMovedSpec p ns q)) ++
     clause "resources" (decide (sameResources p q))
   | .select ns pol, r =>
     if ns.isEmpty then clause "select-all" (r == some p)
@@ -153,6 +162,7 @@ def specViolations (p : Proj) (o : Op) (r : Option Proj) : List String :=
       | some S, some q =>
         clause "closure-saturated" (decide (Closed p.services pol ns S)) ++
         clause "conserved" (decide (Conserved p q)) ++ clause "select" (decide (SelectSpec p S q)) ++
+        clause "select-moved" (decide (SelectMovedSpec p S q)) ++
         clause "resources" (decide (sameResources p q))
       | none, some _ => ["select-accepts-missing"]
       | some _, none => ["select-rejects"]
@@ -174,12 +184,15 @@ def stepJson (p : Proj) (o : Op) (real : Option (Option Proj)) : Json :=
     | .ok mq, some (some q) =>
       if canon mq == q then (true, "exact")
       else match o with
-        | .select ns pol => if selectSomeOrder p ns pol q then (true, "order") else (false, "none")
+        | .select ns pol => if selectSomeOrder p ns pol q then (false, "pre-fix-order") else (false, "none")
         | _ => (false, "none")
     | .err, some none => (true, "exact")
     | _, _ => (false, "none")
   let spec : List String := match real with
-    | some r => if decide (Partition p) then specViolations p o r else ["skipped:not-a-partition"]
+    | some r =>
+      if !decide (Partition p) then ["skipped:not-a-partition"]
+      else if !decide (Named p) then ["skipped:name-differs-from-key"]
+      else specViolations p o r
     | none => []
   Json.mkObj [("agree", .bool agree), ("via", .str via), ("spec", strs spec),
     ("model", match m with | .ok mq => outToJson (.ok (canon mq)) | e => outToJson e)]
